@@ -94,8 +94,9 @@ func (server *SugarDB) Flush(database int) {
 			server.releaseAccountedMemory(db)
 			// Clear db store.
 			clear(server.store[db])
-			// Clear db volatile key tracker.
+			// Clear db volatile key tracker (clear alone only zeroes the elements and leaves empty names behind).
 			clear(server.keysWithExpiry.keys[db])
+			server.keysWithExpiry.keys[db] = server.keysWithExpiry.keys[db][:0]
 			// Clear db LFU cache.
 			server.lfuCache.cache[db].Mutex.Lock()
 			server.lfuCache.cache[db].Flush()
@@ -117,8 +118,9 @@ func (server *SugarDB) Flush(database int) {
 	server.releaseAccountedMemory(database)
 	// Clear db store.
 	clear(server.store[database])
-	// Clear db volatile key tracker.
+	// Clear db volatile key tracker (clear alone only zeroes the elements and leaves empty names behind).
 	clear(server.keysWithExpiry.keys[database])
+	server.keysWithExpiry.keys[database] = server.keysWithExpiry.keys[database][:0]
 	// Clear db LFU cache.
 	server.lfuCache.cache[database].Mutex.Lock()
 	server.lfuCache.cache[database].Flush()
